@@ -419,9 +419,9 @@ def oracle_bin(c, out, stats=None):
         _, dec = parse_algo(c["algorithm"])
         if dec and 9 * k > 11 * opt + 6:
             return ("11/9", f"decreasing variant used {k} bins, optimum {opt}: above 11/9 OPT + 6/9")
-    elif status == "OPTIMAL" and k > 1 and k * cap >= sum(sizes) + cap:
-        # cheap necessary condition when brute force is too expensive: OPTIMAL with a whole bin of slack
-        pass
+    elif status == "OPTIMAL" and k > 1 and (k - 1) * cap >= sum(sizes):
+        # too many items for the brute-force optimum: k is provably minimal only if it meets the bound ceil(total/capacity)
+        return ("optimal", f"labelled OPTIMAL with {k} bins, above the lower bound ceil(total/capacity)")
     return None
 
 
@@ -612,6 +612,14 @@ def run(ctx: Ctx):
         "weights/capacity is counted (knap_decimal_opt_miss) but is a violation only for integer weights and capacity, as the property says",
         "the code's final knapsack check tolerates total_weight <= capacity + 1e-9: C16_knap_feasible_value states weight <= capacity for "
         "inputs on a grid coarser than 1e-9 and weight <= capacity + 1e-9 for arbitrary rationals",
+        "solve_bin_pack's fit test has the same absolute tolerance (size - remaining <= 1e-9, fix 6898168): the oracle allows load <= capacity + 1e-9; "
+        "C16_bin_valid is stated with slack eps, C16_bin_valid_grid without slack on a grid coarser than 1e-9; the Coq checker bin_check is run with slack 0 "
+        "(all generated inputs are on a 1/2048 or 1/1000 grid)",
+        "noted, not flagged (outside the property's quantifier / exact-integer clause): solve_knapsack([], w, c) returns the empty answer before any validation "
+        "(negative capacity accepted when there are no items); solve_knapsack([1],[1.5000000005],1.5) selects item 0 (1e-9 tolerance of the final check); "
+        "solve_knapsack([1,1],[0.0004,0.0004],0.001) -> (0,) OPTIMAL although both fit (weights below 1/scale are rounded up to one unit)",
+        "bin packing on non-dyadic decimals: the float run must use as many bins as the run of the same code on the integer-scaled instance; model correspondence "
+        "is made on the float run only when both runs agree completely (bin_float_guard), and always on the integer-scaled twin",
     ]
     ctx.proof_step(["C16"])
     rng = ctx.rng
